@@ -249,6 +249,7 @@ pub async fn c07(seed: u64, thorough: bool) {
     // missing descriptors are delivered, in archive order, through the maximal runs of their stored ranges.
     let mut n_arch_cases = 0usize;
     let mut n_arch_small_between = 0usize;
+    let mut n_arch_foreign = 0usize;
     let n_arch = if thorough { 12 } else { 4 };
     for ai in 0..n_arch {
         use bitar::api::compress::{create_archive, CreateArchiveOptions};
@@ -315,6 +316,17 @@ pub async fn c07(seed: u64, thorough: bool) {
                     ix.remove(&d.0);
                 }
             }
+            // every other case the index also holds chunks this archive does not have (the index of another
+            // release used against this archive), as many as make it exactly as long as the descriptor list
+            // or one longer: still only the wanted descriptors may be requested
+            if mask % 2 == 1 {
+                let extra = descr.len() + (mask as usize / 2) % 2 - ix.len().min(descr.len());
+                for j in 0..extra {
+                    let foreign: Vec<u8> = (0..16).map(|b| (0xA5u8).wrapping_add((j * 31 + b * 7 + ai) as u8)).collect();
+                    ix.add_chunk(bitar::HashSum::from(foreign), 77, &[(1u64 << 40) + j as u64 * 77]);
+                }
+                n_arch_foreign += 1;
+            }
             srv.reset(arch.clone(), vec![]);
             let mut got_hashes: Vec<bitar::HashSum> = Vec::new();
             let mut bad = false;
@@ -364,6 +376,7 @@ pub async fn c07(seed: u64, thorough: bool) {
     h::emit_stat("exhaustive_subsets_of_chunks", n_chunks);
     h::emit_stat("archive_level_subset_cases", n_arch_cases);
     h::emit_stat("archive_level_cases_with_small_unwanted_chunk_between_wanted", n_arch_small_between);
+    h::emit_stat("archive_level_cases_with_foreign_index_entries", n_arch_foreign);
 }
 
 fn rand_fault(rng: &mut Rng, remaining: usize) -> Resp {
